@@ -1,6 +1,6 @@
 import vlib
 
-THEORY = ["theories/Mesh/Pure.v", "theories/Mesh/PureLemmas.v", "theories/Mesh/PureProofs.v", "theories/Mesh/Case.v", "theories/Mesh/PureLaws.v", "theories/Mesh/AreaLaws.v"]
+THEORY = ["theories/Mesh/Pure.v", "theories/Mesh/PureLemmas.v", "theories/Mesh/PureProofs.v", "theories/Mesh/Case.v", "theories/Mesh/PureLaws.v", "theories/Mesh/AreaLaws.v", "theories/Mesh/Smooth.v", "theories/Mesh/SmoothProofs.v"]
 
 CFG = {
     "id": "C03", "harness": "c03",
@@ -19,7 +19,9 @@ CFG = {
                   "integer-valued meshes (histories of depth <= 4), and Coq evaluates (vm_compute) both model = "
                   "implementation and the boolean contract on the implementation's own output",
     "level_note": "Trusted: Coq kernel + vm_compute; hand-written model tied by differential correspondence only (generator "
-                  "quality bounds it). Values of normalise / normals / Laplacian are float arithmetic: compared by the "
+                  "quality bounds it). LaplacianSmooth values are compared IN COQ (exact dyadic rationals, relative 1e-9) with the "
+                  "rational model Mesh/Smooth.v for which laplacian_spec / laplacian_laws are proved. Values of normalise / normals / "
+                  "Laplacian-along-axis are float arithmetic: compared by the "
                   "harness with an independent float64 computation (1e-9); Coq checks their frame law. weld_spec is stated "
                   "for an arbitrary key function (covers every decimal place); the float rounding inside Vector3ToInt is "
                   "exercised only on integer coordinates",
